@@ -122,7 +122,7 @@ package lunarcontext
 
 // ---------------------------------------------------------------- the priority queue of the queue processor (C06)
 // admission order: smaller score first, then earlier stamp
-//@ ghost func keyLess(s1 real, t1 int64, s2 real, t2 int64) bool = s1 < s2 || (s1 == s2 && t1 < t2)
+//@ ghost func keyLess(p1 real, t1 int64, p2 real, t2 int64) bool = p1 < p2 || (p1 == p2 && t1 < t2)
 
 //@ func (PriorityQueue).Less
 //@   prop C06
